@@ -344,6 +344,13 @@ def coverage(repo, chk):
         p1, p2 = helper.params[:2]
         names = {x.id for x in ast.walk(hr[0].value) if isinstance(x, ast.Name)} if hr else set()
         chk.expect({p1, p2} <= names, 'C05.5c', 'R9', helper.site(), ast.unparse(hr[0]) if hr else '', 'the bucket depends on both values of the pair', 'the pair key must depend on both elements')
+        size = inc.target.value.id if isinstance(inc.target.value, ast.Name) else None
+        alloc = [n for n in own_nodes(fn.node) if isinstance(n, ast.Assign) and isinstance(n.targets[0], ast.Name) and n.targets[0].id == size and isinstance(n.value, ast.Call) and m.dotted(n.value.func) == 'numpy.zeros']
+        sz = ast.unparse(alloc[0].value.args[0]) if alloc else None
+        kt = hr[0].value if hr else None
+        ok_mod = isinstance(kt, ast.BinOp) and isinstance(kt.op, ast.Mod) and ast.unparse(kt.right) == sz
+        chk.expect(ok_mod, 'C05.5d', 'intervals', helper.site(), f'{ast.unparse(kt) if kt is not None else None}; counts = np.zeros({sz})', 'the bucket index is reduced modulo the number of buckets (in range of the zero-initialised count array)',
+                   f'the pair key must be (...) % {sz}, the size of the zero-initialised count array: otherwise the index leaves the array or pairs pile into few buckets')
     # 6: widening
     widened = {}
     for n in own_nodes(fn.node):
